@@ -45,7 +45,7 @@ class _Src:
         return '\n'.join(self.lines) + '\n'
 
 
-def gen_program(rng, nmods=2, nfuncs=4, recursion=False, sync=False, big=False):
+def gen_program(rng, nmods=2, nfuncs=4, recursion=False, sync=False, big=False, hook=None):
     """returns {'files': {relpath: source}, 'meta': {...}}.  Functions fK may call fJ (J > K) of any module (no
     unbounded recursion); `recursion=True` adds self-recursive functions; generators gK; a class with a method.
     Every function ends with `r = <value>` / `return r` so that its return value is visible in its frame, and takes a
@@ -66,8 +66,11 @@ def gen_program(rng, nmods=2, nfuncs=4, recursion=False, sync=False, big=False):
         s = _Src()
         s.add(0, '# host module %s (generated)' % m)
         s.add(0, '')
-        info = {'def': {}, 'body': {}, 'stmt': [], 'dead': [], 'kinds': {}}
+        info = {'def': {}, 'body': {}, 'stmt': [], 'dead': [], 'kinds': {}, 'oneline': {}}
         names = ['f%d' % k for k in range(nfuncs)]
+        hook_fn = None
+        if hook and mi == 0:
+            hook_fn = 'f0' if rng.random() < 0.6 else rng.choice(names)
         # generator
         gname = 'g0'
         ln = s.add(0, 'def %s(n, k):' % gname)
@@ -90,8 +93,17 @@ def gen_program(rng, nmods=2, nfuncs=4, recursion=False, sync=False, big=False):
             nst = rng.randint(1, 5 if big else 3)
             kind = rng.choice(['plain', 'plain', 'raiser', 'rec'] if recursion else ['plain', 'plain', 'raiser'])
             info['kinds'][name] = kind
-            for _ in range(nst):
+            hook_at = rng.randrange(nst + 1) if name == hook_fn else None
+            if name == hook_fn:
+                info['hook_fn'] = name
+            for q in range(nst):
+                if hook_at == q:
+                    info['hook'] = s.add(1, "_HOOK('%s')" % hook)
+                    info['stmt'].append(info['hook'])
                 _stmt(rng, s, 1, info, k, nfuncs, mods, m, 0, sync)
+            if hook_at == nst:
+                info['hook'] = s.add(1, "_HOOK('%s')" % hook)
+                info['stmt'].append(info['hook'])
             if kind == 'rec':
                 info['stmt'].append(s.add(1, 'if n > 0:'))
                 info['stmt'].append(s.add(2, 'x = x + %s(n - 1, next(_TL.ctr))' % name))
@@ -114,6 +126,18 @@ def gen_program(rng, nmods=2, nfuncs=4, recursion=False, sync=False, big=False):
         info['stmt'].append(b)
         info['stmt'].append(s.add(2, 'r = y'))
         info['stmt'].append(s.add(2, 'return r'))
+        # scopes that start and run on one line, last in the file: a one-line def and a lambda body on its own line
+        s.add(0, '')
+        s.add(0, '')
+        ln = s.add(0, 'def one(n, k): return n + 1')
+        info['oneline']['one'] = ln
+        info['def']['one'] = ln
+        info['body']['one'] = ln
+        s.add(0, '')
+        s.add(0, '')
+        s.add(0, 'LAM = (')
+        info['oneline']['<lambda>'] = s.add(1, 'lambda n, k: n + 100')
+        s.add(0, ')')
         info['nlines'] = len(s.lines)
         files[relpaths[m]] = s.text()
         meta['funcs'][m] = names
@@ -162,8 +186,13 @@ def _stmt(rng, s, ind, info, k, nfuncs, mods, me, depth, sync):
         # closed explicitly: left to the garbage collector its GeneratorExit events would come whenever the last
         # reference dies, and a snapshot of this frame keeps `it` alive until the next cyclic collection
         info['stmt'].append(s.add(ind, 'it.close()'))
-    elif r < 0.96:
+    elif r < 0.935:
         info['stmt'].append(s.add(ind, 'x = x + K().meth(%d, next(_TL.ctr))' % rng.randint(0, 2)))
+    elif r < 0.96:
+        m = rng.choice(mods)
+        pre = '' if m == me else m + '.'
+        info['stmt'].append(s.add(ind, 'x = x + %s%s(%d, next(_TL.ctr))' % (pre, rng.choice(['one', 'LAM']),
+                                                                        rng.randint(0, 2))))
     elif sync:
         info['stmt'].append(s.add(ind, '_ARR.put(1)'))
         info['stmt'].append(s.add(ind, '_TL.go.get(True, 30)'))
@@ -197,7 +226,7 @@ class Host:
             if rel in nosource:
                 import types
                 mod = types.ModuleType('vhost%d_%s' % (Host._n, name))
-                mod.__dict__.update(_ARR=self.arr, _TL=self.tl, _dec=self.dec)
+                mod.__dict__.update(_ARR=self.arr, _TL=self.tl, _dec=self.dec, _HOOK=self.hook)
                 exec(compile(files[rel], p, 'exec'), mod.__dict__)
                 self.mods[name] = mod
                 self.paths[name] = p
@@ -207,6 +236,7 @@ class Host:
             mod.__dict__['_ARR'] = self.arr
             mod.__dict__['_TL'] = self.tl
             mod.__dict__['_dec'] = self.dec
+            mod.__dict__['_HOOK'] = self.hook
             spec.loader.exec_module(mod)        # not traced: runs on the harness thread before installation
             self.mods[name] = mod
             self.paths[name] = p
@@ -227,6 +257,16 @@ class Host:
         self.hits[k] = n + 1
         sc = self.scripts.get(t, {}).get(tp_id, [])
         return sc[n] if n < len(sc) else True
+
+    hook_fn = None
+
+    def hook(self, what):
+        """called by host code (`_HOOK('empty')` / `_HOOK('shutdown')`): under the agent the installed tracepoint list
+        is emptied at this point of the program (once); in the reference run nothing happens."""
+        f = self.hook_fn
+        if f is not None:
+            self.hook_fn = None
+            f(what)
 
     def entry(self, spec):
         mod, fn, arg = spec
@@ -652,7 +692,19 @@ def matches(loc, e):
     return e['kind'] == 'call' and base == loc[1] and e['func'] == loc[2]
 
 
-def reference(case_tps, events, script):
+def emptied_at(case, events):
+    """index of the first event that is handled with the emptied tracepoint list: the event after the first `line`
+    event of the program's `_HOOK(..)` statement (None = the list is never emptied)."""
+    h = case.get('hook')
+    if not h:
+        return None
+    for i, e in enumerate(events):
+        if e['kind'] == 'line' and e['line'] == h['line'] and e['path'] == '/host/' + h['file']:
+            return i + 1
+    return None
+
+
+def reference(case_tps, events, script, upto=None):
     """the property's own rule on one thread's reference stream.  Returns a list of groups, one per event that
     has effects: {'i': event index, 'effects': [(kind, tp id, extra)]}; opens carry the window in which the
     statement allows their completion (by frame identity)."""
@@ -662,6 +714,8 @@ def reference(case_tps, events, script):
     pending = []       # (open index, tp, kind 'line'|'method', frame, inv id, effect name)
     for i, e in enumerate(events):
         effs = []
+        if upto is not None and i >= upto:
+            break               # the tracepoints are no longer installed
         for tp in case_tps:
             loc = tp_location(tp)
             if not matches(loc, e):
@@ -917,6 +971,13 @@ def run_case(case, hooks=False):
         r.install(triggers)
         host.scripts = case.get('scripts', {})
         host.hits = {}
+
+        def change_config(what, h=r.handler):
+            if what == 'shutdown':
+                h.shutdown()         # the handler never called start(): only the trigger list is cleared
+            else:
+                h.new_config([])     # a poll that delivers no tracepoints
+        host.hook_fn = change_config
         out = run_program(host, entries, case['mode'], r.handler.trace_call, case.get('sched'),
                           before=before, after=after, sequential=case.get('sequential', False))
         effects = {t: canon_effects(host, ev) for t, ev in obs.effects.items()}
@@ -959,7 +1020,11 @@ def run_request(case, obs):
             if tp.get('scripted'):
                 for a in tp_model_actions(i, tp):
                     script.append({'tp': i, 'kind': a['kind'], 'dec': sc.get(tp['id'], [])})
-        threads.append({'events': model_events(obs['ref'].get(t, [])), 'script': script})
+        th_req = {'events': model_events(obs['ref'].get(t, [])), 'script': script}
+        n = emptied_at(case, obs['ref'].get(t, []))
+        if n is not None:
+            th_req['empty_at'] = n
+        threads.append(th_req)
     rr = random.Random(case.get('model_seed', 0))
     total = sum(len(x['events']) for x in threads)
     sched = [rr.randrange(len(threads)) for _ in range(total)] if threads else []
